@@ -26,7 +26,10 @@ ASSUMPTIONS = [
 BASE_INTERVALS = [
     (F(0), F(1)), (F(0), F(1, 2)), (F(1, 2), F(1)), (F(1, 4), F(3, 4)), (F(1, 10), F(1, 5)),
     (F(1, 3), F(2, 3)), (F(3, 10), F(3, 10)), (F(0), F(1, 4)), (F(3, 4), F(1)),
+    # narrow but not empty (the area is judged to 1e-6 of the width, see NARROW)
+    (F(3, 5), F(3, 5) + F(1, 250000)), (F(1, 4), F(1, 4) + F(1, 10**8)), (F(1) - F(1, 10**6), F(1)),
 ]
+NARROW = F(1, 1000)
 
 
 HUGE_EASY = [(3_000_000_000, 1), (0, 5_000_000_000)]  # class totals beyond 2^31 / 2^32 (counted, never held)
@@ -35,9 +38,9 @@ HUGE_EASY = [(3_000_000_000, 1), (0, 5_000_000_000)]  # class totals beyond 2^31
 def bounds(tier):
     if tier == "quick":
         return {"max_pos": 3, "max_neg": 3, "easy": [[0, 0], [1, 0], [0, 2], [2, 2]],
-                "grids": ["irregular", "int", "uint", "float32", "ulp", "mixed_narrow", "mixed_f32"], "intervals": len(BASE_INTERVALS) + 1}
+                "grids": ["irregular", "int", "uint", "float32", "ulp", "ulp_pow2", "symmetric", "mixed_narrow", "mixed_f32"], "intervals": len(BASE_INTERVALS) + 1}
     return {"max_pos": 4, "max_neg": 4, "easy": [[a, b] for a in range(4) for b in range(4)],
-            "grids": ["irregular", "int", "dyadic", "ulp", "uint", "float32"] + ot.MIXED_KINDS, "intervals": len(BASE_INTERVALS) + 1}
+            "grids": ["irregular", "int", "dyadic", "ulp", "ulp_pow2", "symmetric", "uint", "float32"] + ot.MIXED_KINDS, "intervals": len(BASE_INTERVALS) + 1}
 
 
 def intervals(seed, tier="quick"):
@@ -140,7 +143,7 @@ def run(item, ctx, tier, seed):
                     continue
                 areas[(lo, hi)] = a
                 ctx.outcome(("partial", str(lo), str(hi), round(a, 9)))
-                if not abs(a - float(ref)) <= TOL:
+                if not abs(a - float(ref)) <= (TOL if hi - lo >= NARROW else 1e-6 * float(hi - lo) + 1e-15):
                     ctx.fail("partial-auc-equals-step-area", c2, observed=a, expected=float(ref),
                              snippet=_snip(pos, neg, cfg, ep, en, f"auc({float(lo)!r}, {float(hi)!r})"))
                 if a > float(hi - lo) + TOL:
